@@ -12,7 +12,7 @@ EXTRA = {"C02-C": ["C16", "C10"], "C03-C": ["C16", "C10"], "C05-D": ["C16", "C10
          "C02-B": ["C16"], "C05-B": ["C16"], "C07-B": ["C17"], "C13-B": ["C17"], "C03-B": ["C10"], "C10-A": ["C03"], "C16-B": ["C05"], "C08-B": ["C03", "C04"], "C01-B": ["C06"], "C06-B": ["C01"]}
 
 def sh(cmd, **kw):
-    return subprocess.run(cmd, shell=True, capture_output=True, text=True, **kw)
+    return subprocess.run(cmd, shell=True, capture_output=True, text=True, errors='replace', **kw)
 
 def main():
     todo = sys.argv[1:]
